@@ -33,7 +33,14 @@ def ext_calls(h):
 
 
 def run(ctx):
+    # the C-STORE responses of the C-GET user (C19's exploration of qr_get_scu, on its own interpreter): every
+    # incoming C-STORE request is answered on the context it arrived on, correlated, with the handler's status
+    from . import c19
+    c19.run(ctx, only_get=True)
+    ctx.run_explorations()
+    first_stats = dict(ctx.explore_stats)
     it = ctx.build(by_contract=['dsutils.decode', 'dsutils.encode', 'dsutils.encode_element'])
+    ctx.earlier_explore_stats = first_stats
     sc = it.modules['pynetdicom2.sopclass']
     dm = it.modules['pynetdicom2.dimsemessages']
     st = it.modules['pynetdicom2.statuses']
